@@ -292,3 +292,15 @@ Fixpoint expect_from (opcode idx : N) (l : list (N * bytes)) : list (N * N * N *
   | [] => []
   | (iid, data) :: r => (opcode, idx, iid, data) :: expect_from opcode (idx + 1)%N r
   end.
+
+(* a Python dict filled by "results[key] = r" in list order, read back at key k:
+   the value of the LAST pair whose key equals k *)
+Fixpoint dict_get {K V : Type} (eqb : K -> K -> bool) (k : K) (l : list (K * V)) : option V :=
+  match l with
+  | [] => None
+  | (k', v) :: r =>
+      match dict_get eqb k r with
+      | Some v' => Some v'
+      | None => if eqb k k' then Some v else None
+      end
+  end.
